@@ -1,5 +1,5 @@
 /-
-Helper lemmas for C20 (file part): splitting on '\n', `lastIdxNL`, `trim`, and the list-level specification
+Helper lemmas for C20 (file part): splitting on '\n', `lastIdxNL`, `trimLine`, and the list-level specification
 `revSpec` of what the reverse scanner still has to yield from an unconsumed prefix of the file.
 -/
 import ShpanVerif.Model.FileScan
@@ -124,42 +124,38 @@ theorem lastNL_unique {a b a' b' : Bytes} (h : a ++ NL :: b = a' ++ NL :: b') (h
       obtain ⟨rfl, e⟩ := ih h.2
       exact ⟨by rw [h.1], e⟩
 
-/-! ### trim -/
+/-! ### trimLine (the token function) -/
 
-theorem isCRLF_NL : isCRLF NL = true := by decide
+/-- The data handed to `trimLine` by `ScanLines` starts with the '\n' of the previous line: what is left is the raw
+line without one trailing '\r'. -/
+theorem trimLine_NL_cons (b : Bytes) : trimLine (NL :: b) = dropCR b := by
+  simp [trimLine]
 
-theorem trimRight_cons_of_isCRLF {x : UInt8} (b : Bytes) (hx : isCRLF x = true) :
-    trimRight (x :: b) = if trimRight b = [] then [] else x :: trimRight b := by
-  unfold trimRight
-  rw [reverse_cons, dropWhile_append]
-  by_cases h : (dropWhile isCRLF b.reverse) = []
-  · simp [h, hx]
-  · simp [h]
+/-- Data without any '\n' (the first line of the file in the `rOffset == 0` branch). -/
+theorem trimLine_of_noNL {b : Bytes} (h : NL ∉ b) : trimLine b = dropCR b := by
+  cases b with
+  | nil => rfl
+  | cons c r =>
+    have hc : ¬ (c == NL) = true := by
+      intro hc; have : c = NL := by simpa using hc
+      exact h (by simp [this])
+    simp [trimLine, hc]
 
-theorem trim_cons_of_isCRLF {x : UInt8} (b : Bytes) (hx : isCRLF x = true) : trim (x :: b) = trim b := by
-  unfold trim
-  rw [trimRight_cons_of_isCRLF b hx]
-  by_cases h : trimRight b = []
-  · simp [h, trimLeft]
-  · simp [h, trimLeft, hx]
-
-theorem trim_NL_cons (b : Bytes) : trim (NL :: b) = trim b := trim_cons_of_isCRLF b isCRLF_NL
-
-theorem trim_nil : trim [] = [] := rfl
+theorem lineToken_false (d : Bytes) : lineToken false d = trimLine d := rfl
 
 /-! ### what the reverse scanner yields from an unconsumed prefix `g` of the file -/
 
-/-- From right to left: the trimmed segments, except that an empty first segment is not yielded (this is where a
-leading empty line gets lost). -/
+/-- From right to left: the segments without one trailing '\r' each, except that an empty first segment is not
+yielded (this is where a leading empty line gets lost). -/
 def revSpec (g : Bytes) : List Bytes :=
   match splitNL g with
   | [] => []
-  | h :: t => t.reverse.map trim ++ (if h = [] then [] else [trim h])
+  | h :: t => t.reverse.map dropCR ++ (if h = [] then [] else [dropCR h])
 
-theorem revSpec_noNL {g : Bytes} (h : NL ∉ g) : revSpec g = if g = [] then [] else [trim g] := by
+theorem revSpec_noNL {g : Bytes} (h : NL ∉ g) : revSpec g = if g = [] then [] else [dropCR g] := by
   unfold revSpec; rw [splitNL_noNL h]; simp
 
-theorem revSpec_snoc {a b : Bytes} (h : NL ∉ b) : revSpec (a ++ NL :: b) = trim b :: revSpec a := by
+theorem revSpec_snoc {a b : Bytes} (h : NL ∉ b) : revSpec (a ++ NL :: b) = dropCR b :: revSpec a := by
   unfold revSpec; rw [splitNL_snoc h]
   cases hs : splitNL a with
   | nil => exact absurd hs (splitNL_ne_nil a)
@@ -169,7 +165,7 @@ theorem revSpec_nil : revSpec [] = [] := by simp [revSpec, splitNL_nil]
 
 /-- If the first segment is not empty nothing is lost: all segments, right to left. -/
 theorem revSpec_of_head {x : UInt8} {xs : Bytes} (hx : x ≠ NL) :
-    revSpec (x :: xs) = (splitNL (x :: xs)).reverse.map trim := by
+    revSpec (x :: xs) = (splitNL (x :: xs)).reverse.map dropCR := by
   obtain ⟨s, ss, h⟩ := splitNL_head_cons (xs := xs) hx
   unfold revSpec; rw [h]; simp
 
